@@ -75,7 +75,8 @@ def handle (fn : String) (args : List String) : Option String :=
     | _, _ => bad
   | _, _ => none
 
-/-- class of a name on which the alias generator panicked -/
+/-- class of a name on which the alias generator panicked (defect F5, repaired in /repo 0f20958: the model never
+    answers PANIC any more; the oracle stays so that a regression is reported as a C15 violation) -/
 def panicClass (cs : List Char) : String :=
   match cs with
   | [] => "empty"
@@ -93,7 +94,9 @@ def oracleGenerate (h : String) (ex : String) (mi : String) (implOut : List Stri
       match bytesOfHex a with
       | none => some s!"C16 alias-illegal unparsable name={h}"
       | some alias =>
-        if !legalAliasB alias then some s!"C16 alias-illegal name={h} alias={a}"
+        -- C16.1 is a statement about non-empty names (`alias_legal_partial`; the empty name, which validation
+        -- rejects, gets the all-blank name: `alias_legal_counterexample`)
+        if h != "-" && !legalAliasB alias then some s!"C16 alias-illegal name={h} alias={a}"
         else if existing.contains alias then some s!"C16 alias-not-fresh name={h} alias={a}"
         else none
     | _ => none
